@@ -158,6 +158,12 @@ def verify_contract(ex: Exec, c: api.Contract):
         if "raises_when" in c.methods:
             ex.oblige("raises", z3.Not(truthy(ex.spec_eval(c, "raises_when", entry))), finfo.node.lineno,
                       note="returned normally although the contract says it must raise", label="raises.must")
+        if c.opts.get("fresh_result"):
+            _g = getattr(ret.val if hasattr(ret, "isnone") and hasattr(ret, "val") else ret, "module_global", None)
+            # the result must be a fresh object: handing out a module-level mutable container itself lets every caller
+            # that mutates "its" result rewrite process-wide state (later calls then see the stale values)
+            ex.oblige("post", z3.BoolVal(_g is None), finfo.node.lineno, label="post.result_is_fresh",
+                      note="" if _g is None else f"returns the module-level mutable object {_g} itself (not a copy)")
         if c.returns is not None:
             from .ty import VEnum as _VEnum, Str as _StrT, Opt as _OptT, VOpt as _VOptV
             _inner = ret.val if isinstance(ret, _VOptV) else ret
